@@ -132,6 +132,29 @@ for k, (t, eng) in ROUND4.items():
     if eng:
         CLAIMED[k]["engine"] = eng
 
+# additions of round 5
+ROUND5 = {
+ "C01": " Round 5: 17280 words that assign IFS inside themselves (`${IFS=v}` / `${IFS:=v}`, quoted or not, before / after / between the text to be split); IFS values whose first character is multi-byte.",
+ "C02": " Round 5: the real PATH-search slice (400 / 4000 searches) has empty PATH components (leading, doubled, trailing colon = the working directory, which may hold the name), relative components and trailing slashes.",
+ "C03": " Round 5: variable values with a sign behind the radix prefix or a dangling sign (an error as expression text, so an error as a value).",
+ "C04": " Round 5: option toggles (set -f, -C, -a, -u and back) between the cases of the shell-level slice.",
+ "C05": " Round 5: directories with multi-byte names in trees and patterns; names that are not valid UTF-8 next to the others in every directory of every other real-system tree.",
+ "C06": " Round 5: escapes at the limits of the 4-digit/8-digit forms and around the surrogates, descriptor numbers around 2^31 / 2^32 / 2^64, in the grammar and as 11 fixed boundary inputs.",
+ "C07": " Round 5: variable names `+x`, `--`, multi-byte names; trap actions that look like options or like the option terminator.",
+ "C08": " Round 5: job-control slice - `set -m` with a controlling terminal, 8 job shapes (inner subshells, substitutions, asynchronous lists, pipelines, nested jobs) x descriptor limits {none, 10, 11, 12, 16} x 8 mutators, FIFO and random schedules: parent's facets (descriptors included) before == after every job, and the terminal's foreground process group is the job's while it runs and the shell's afterwards.",
+ "C09": " Round 5: permission bits of files created by a redirection (666 & ~umask, six masks); in every third scenario the operands are spelled through command substitutions / backquotes / ${v:-X}, i.e. expanded with the descriptor table as the earlier redirections of the list left it.",
+ "C10": " Round 5 (stock-shell slice): the EXIT trap set in six spellings, some together with INT/QUIT in one `trap` command while the shell was started with those signals ignored; four errexit-exempt cases through an alias, condition subshells and negated groups (21 cases in all).",
+ "C14": " Round 5: `<<-` here-documents (quoted and expanding) with every mix of tab/space indentation and indented delimiters; two writers sharing one pipe end among the virtual scenarios (length pinned).",
+ "C16": " Round 5: allexport slice - 9 forms of assignment (plain, for, ${v=w}, ${v:=w}, $((v=7)), read, getopts, repeated, nested for) x 5 contexts x option on/off: export attribute while the option is on and after it is turned off.",
+ "C18": " Round 5: pipelines whose first stage is still busy when the last has finished and then reads the script's next line (12 forms); here-document operator on a line that ends with `|` (8 forms).",
+ "C19": " Round 5: AddressSanitizer build of the harness (nightly, built by ./check): 1000 / 20000 of the generated real-system runs and 22 fixed FFI-surface scripts (4.8 kB working directory, 200-entry directories with 250-byte and non-UTF-8 names, 4096 arguments and 200 exported variables through execve, ~user, command -p, every ulimit resource, times, traps on every signal incl. real-time, 30 concurrent children, symlinks with cd -P/-L, set -m without a terminal, ENOEXEC fall-back ...) run under ASan in both tiers and under memcheck as well in thorough; verdict = no sanitizer report, no death by signal.",
+ "C20": " Round 5 (part C): groups on the option terminator followed by `--` or an option-like operand (trap -- -- USR2, trap -- -p USR2, unset -- -- x, set -- -- a).",
+}
+for k, t in ROUND5.items():
+    CLAIMED[k]["text"] += t
+CLAIMED["C19"]["technique"] = CLAIMED["C19"]["technique"].replace("thorough tier repeats a slice of the real-system runs under valgrind memcheck", "sanitizers: an AddressSanitizer build of the harness re-runs a slice of the real-system scripts and 22 scripts aimed at the libc FFI surface of RealSystem in both tiers; the thorough tier repeats both under valgrind memcheck")
+CLAIMED["C08"]["technique"] = CLAIMED["C08"]["technique"] + "; kernel-state facet for the controlling terminal's foreground process group in the job-control slice"
+
 PENDING_REASON = "monitor not implemented yet (work in progress; see DESIGN.md section 5)"
 
 def main():
